@@ -278,6 +278,44 @@ impl World {
         for (a, c) in &high {
             out.extend([*a, *c]);
         }
+        // independent re-computation of the delta: a cumulative summary covers the thread up to its to_seq; what its base
+        // (when its text is carried forward) does not cover already — the messages after the base's to_seq up to the
+        // cut — must be what was folded in: their number, their per-actor counts, the last 12 of them
+        if auto && !self.truncated.get() {
+            let t = v["coverage"]["to_seq"].as_u64().unwrap_or(0);
+            let lo = if note == 0 {
+                match v["basis"]["base_summary_artifact_id"].as_str() {
+                    None => Some(0),
+                    Some(b) => self.read_art_json(b).and_then(|bj| bj["coverage"]["to_seq"].as_u64()),
+                }
+            } else {
+                Some(0)
+            };
+            if let Some(lo) = lo {
+                let want: Vec<(u64, u64)> = self
+                    .events
+                    .iter()
+                    .filter_map(|e| match &e.kind {
+                        EventKind::ContinuityMessageAppended { actor_id, content, .. } if e.seq > lo && e.seq <= t => Some((actor_id.trim_start_matches("actor").parse().unwrap_or(444_444), self.contents.get(content).copied().unwrap_or(444_444))),
+                        _ => None,
+                    })
+                    .collect();
+                let mut counts: BTreeMap<u64, u64> = BTreeMap::new();
+                for (a, _) in &want {
+                    *counts.entry(*a).or_default() += 1;
+                }
+                let mut want_actors: Vec<(u64, u64)> = counts.into_iter().collect();
+                want_actors.sort_by(|x, y| y.1.cmp(&x.1).then(x.0.cmp(&y.0)));
+                want_actors.truncate(6);
+                let want_high: Vec<(u64, u64)> = want[want.len().saturating_sub(12)..].to_vec();
+                if delta != want.len() as u64 || actors != want_actors || high != want_high {
+                    self.art_viol.borrow_mut().push(Viol {
+                        what: format!("summary {id} (coverage to_seq {t}, base coverage to_seq {lo}) was built from {delta} message(s), actors {actors:?}, last (actor, content) {high:?}; the messages with {lo} < seq <= {t} are {} with actors {want_actors:?}, last {want_high:?}", want.len()),
+                        class: "summary_delta_not_the_uncovered_messages".into(),
+                    });
+                }
+            }
+        }
         // text level: a cumulative summary built on a readable, non-placeholder base carries that base's cumulative
         // section forward at the head of its own; a bootstrap summary starts from the topics of the whole history
         if auto {
@@ -1068,6 +1106,120 @@ fn long_checkpoint_history(n_after: usize) -> Vec<Viol> {
     out
 }
 
+// ------------------------------------------------------------------ the job's base selection beyond the bounded scan
+/// A thread written straight into events.jsonl: 2 messages, `n` checkpoint frames for the 2nd message (each naming its
+/// own summary artifact id), 2 more messages.  auto(stride 2) plans the 4th message; the base of its summary is the
+/// latest checkpoint frame below the cut: the LAST of the n frames (c09_summary_base_is_latest_below_cut).  With
+/// n > 10 000 the bounded sidecar scan refuses and the job selects the base from its replay snapshot.
+fn long_history_auto_base(n: usize) -> Vec<Viol> {
+    let sc = Scratch::new("c09lb");
+    let data = sc.path().join("data");
+    let ws = sc.path().join("ws");
+    std::fs::create_dir_all(&ws).unwrap();
+    let log = Arc::new(EventLog::new(data.join("events.jsonl")).unwrap());
+    let tid = uuid::Uuid::new_v4().to_string();
+    let mut seq = 0u64;
+    let mut push = |kind: EventKind| -> (u64, String) {
+        let id = uuid::Uuid::new_v4().to_string();
+        log.append(&Event { id: id.clone(), session_id: tid.clone(), timestamp_ms: 1, seq, kind }).unwrap();
+        seq += 1;
+        (seq - 1, id)
+    };
+    push(EventKind::ContinuityCreated { workspace: "w".into(), title: None });
+    let msg = |i: usize| EventKind::ContinuityMessageAppended { actor_id: "actor0".into(), origin: "test".into(), content: format!("message {i} tok{i}") };
+    push(msg(0));
+    let m1 = push(msg(1));
+    let art = |i: usize| format!("{:064x}", i + 1);
+    for i in 0..n {
+        push(EventKind::ContinuityCompactionCheckpointCreated {
+            checkpoint_id: uuid::Uuid::new_v4().to_string(),
+            cut_rule_id: "manual_v1".into(),
+            summary_kind: "cumulative_v1".into(),
+            summary_artifact_id: art(i),
+            from_seq: 0,
+            from_message_id: None,
+            to_seq: m1.0,
+            to_message_id: Some(m1.1.clone()),
+            actor_id: "actor0".into(),
+            origin: "test".into(),
+        });
+    }
+    push(msg(2));
+    let m3 = push(msg(3));
+    let store = ContinuityStore::new(data.clone(), ws.clone(), log.clone()).unwrap();
+    let mut out = vec![];
+    let r = store.compaction_auto_v1(&tid, CompactionAutoV1Request { stride_messages: Some(2), max_new_checkpoints: Some(1), dry_run: None, actor_id: "actor0".into(), origin: "test".into() });
+    match r {
+        Ok(r) if r.status == "completed" && r.result.len() == 1 && r.result[0].to_seq == m3.0 => {
+            let blob = ws.join(".rip").join("artifacts").join("blobs").join(&r.result[0].summary_artifact_id);
+            let v: Value = std::fs::read(&blob).ok().and_then(|b| serde_json::from_slice(&b).ok()).unwrap_or(Value::Null);
+            let got = v["basis"]["base_summary_artifact_id"].as_str().map(|x| x.to_string());
+            if got != Some(art(n - 1)) {
+                let which = got.as_ref().and_then(|g| (0..n).find(|i| &art(*i) == g));
+                out.push(Viol { what: format!("{n} checkpoint frames for the cut below: the summary of the next cut names as base the artifact of frame #{which:?} (0-based) of them, the latest in stream order is #{}", n - 1), class: "summary_base_not_latest_checkpoint".into() });
+            }
+            // unreadable base (the artifacts do not exist): bootstrap from all 4 messages
+            let md = v["summary_markdown"].as_str().unwrap_or("");
+            if !md.contains("- delta_message_count: 4\n") || !v["basis"]["note"].as_str().unwrap_or("").contains("base_read_failed") {
+                out.push(Viol { what: format!("unreadable base: expected a bootstrap summary over all 4 messages with note base_read_failed, got basis {} / {}", v["basis"], md.lines().find(|l| l.starts_with("- delta_message_count")).unwrap_or("")), class: "summary_coverage_mismatch".into() });
+            }
+        }
+        other => out.push(Viol { what: format!("auto on a thread with {n} checkpoint frames below the cut: {:?}", other.map(|r| (r.status, r.planned.len(), r.error))), class: "auto_frames_not_planned".into() }),
+    }
+    out
+}
+
+// ------------------------------------------------------------------ a summary artifact of another thread
+/// Parent thread [created, m, m, m]; a branch child [created, branched, m, m]: seq 2 and 3 are message boundaries in
+/// both.  A manual checkpoint of the child at seq 2 yields a summary artifact covering (child, 2).  Offering that
+/// artifact for a checkpoint of the PARENT at seq 2 must be refused (coverage names another thread) and append nothing;
+/// offering it for the child at seq 3 must be refused (coverage ends elsewhere); for the child at seq 2 it is accepted.
+fn foreign_summary_scenario() -> Vec<Viol> {
+    let mut w = World::new("c09f");
+    let mut v = vec![];
+    for i in 0..3 {
+        w.store.append_message(&w.tid, "actor0".into(), "test".into(), format!("parent {i}")).unwrap();
+    }
+    let child = match w.store.branch(&w.tid, None, None, None, "actor0".into(), "test".into()) {
+        Ok((id, _, _)) => id,
+        Err(e) => return vec![Viol { what: format!("branch failed: {e}"), class: "unexpected_error".into() }],
+    };
+    for i in 0..2 {
+        w.store.append_message(&child, "actor0".into(), "test".into(), format!("child {i}")).unwrap();
+    }
+    let req = |art: Option<String>, md: Option<&str>, to_seq: u64| CompactionCheckpointCumulativeV1Request {
+        summary_markdown: md.map(|m| m.to_string()),
+        summary_artifact_id: art,
+        to_message_id: None,
+        to_seq: Some(to_seq),
+        stride_messages: None,
+        actor_id: "actor0".into(),
+        origin: "test".into(),
+    };
+    let art = match w.store.compaction_checkpoint_cumulative_v1(&child, req(None, Some("child summary\n\n## Cumulative Summary\n\nchild text\n"), 2)) {
+        Ok((_, a, _, _, _)) => a,
+        Err(e) => return vec![Viol { what: format!("manual checkpoint of the child failed: {e}"), class: "unexpected_error".into() }],
+    };
+    let count = |tid: &str| w.log.replay_stream(StreamKind::Continuity, tid).map(|e| e.len()).unwrap_or(0);
+    let (p0, c0) = (count(&w.tid), count(&child));
+    if let Ok((ck, ..)) = w.store.compaction_checkpoint_cumulative_v1(&w.tid, req(Some(art.clone()), None, 2)) {
+        v.push(Viol { what: format!("a summary artifact whose coverage names another thread was accepted as the summary of a checkpoint (frame {ck}) of this thread at the same seq"), class: "summary_coverage_mismatch".into() });
+    } else if count(&w.tid) != p0 {
+        v.push(Viol { what: "refused manual checkpoint (foreign summary) appended frames".into(), class: "noop_appended_frames".into() });
+    }
+    if let Ok((ck, ..)) = w.store.compaction_checkpoint_cumulative_v1(&child, req(Some(art.clone()), None, 3)) {
+        v.push(Viol { what: format!("a summary artifact covering to_seq 2 was accepted for a checkpoint (frame {ck}) at to_seq 3"), class: "summary_coverage_mismatch".into() });
+    } else if count(&child) != c0 {
+        v.push(Viol { what: "refused manual checkpoint (coverage ends elsewhere) appended frames".into(), class: "noop_appended_frames".into() });
+    }
+    match w.store.compaction_checkpoint_cumulative_v1(&child, req(Some(art.clone()), None, 2)) {
+        Ok(_) if count(&child) == c0 + 1 => {}
+        other => v.push(Viol { what: format!("a summary artifact with matching coverage was not accepted as one more checkpoint: {:?}", other.map(|x| x.0)), class: "unexpected_error".into() }),
+    }
+    w.refresh();
+    v
+}
+
 // ------------------------------------------------------------------ the job's error path (artifact store unwritable)
 /// 2 messages, `.rip/artifacts` replaced by a regular file: the summary cannot be written, the job must fail and
 /// still be bracketed (job_spawned + job_ended(failed) of the same job, nothing else); after the obstruction is
@@ -1767,6 +1919,34 @@ fn main() {
             Ok(vs) => {
                 if let Some(v) = vs.into_iter().next() {
                     res.oracle_violations.push(OracleViolation { case_id: -3, what: v.what, class: v.class, replay: json!({"io_failure_scenario": {"schedule": schedule}, "how": "2 messages; .rip/artifacts replaced by a file; auto / schedule(stride 2)"}) });
+                }
+            }
+        }
+    }
+    for n in [3usize, 10_001] {
+        let got = std::panic::catch_unwind(move || long_history_auto_base(n));
+        res.evaluations += 1;
+        res.oracle_checks += 2;
+        res.bump("long_history_auto_base");
+        match got {
+            Err(_) => res.oracle_violations.push(OracleViolation { case_id: -4, what: "panic in auto on a long checkpoint history".into(), class: "panic".into(), replay: json!({"long_history_auto_base": n}) }),
+            Ok(vs) => {
+                for v in vs {
+                    res.oracle_violations.push(OracleViolation { case_id: -4, what: v.what, class: v.class, replay: json!({"long_history_auto_base": n, "how": "events.jsonl = created, 2 messages, n checkpoint frames for the 2nd message (own artifact ids), 2 messages; auto(stride 2, max_new 1)"}) });
+                }
+            }
+        }
+    }
+    {
+        let got = std::panic::catch_unwind(foreign_summary_scenario);
+        res.evaluations += 1;
+        res.oracle_checks += 3;
+        res.bump("foreign_summary_scenario");
+        match got {
+            Err(_) => res.oracle_violations.push(OracleViolation { case_id: -5, what: "panic in the foreign-summary scenario".into(), class: "panic".into(), replay: json!({"foreign_summary_scenario": true}) }),
+            Ok(vs) => {
+                for v in vs {
+                    res.oracle_violations.push(OracleViolation { case_id: -5, what: v.what, class: v.class, replay: json!({"foreign_summary_scenario": true, "how": "parent [created, m, m, m]; branch child [created, branched, m, m]; manual checkpoint of the child at seq 2 -> artifact A; manual checkpoint {summary_artifact_id: A} of the parent at seq 2 / of the child at seq 3 / of the child at seq 2"}) });
                 }
             }
         }
